@@ -427,6 +427,15 @@ func (w *World) pkgFuncs() []*ssa.Function {
 func ssaName(fn *ssa.Function) string {
 	s := fn.String()
 	s = strings.ReplaceAll(s, twigPath+".", "")
+	if strings.HasPrefix(s, "init$") {
+		// function literals of package-level initialisers: their ordinal changes whenever a
+		// literal is added anywhere before them, so it is not part of the stable name
+		rest := s[len("init$"):]
+		if i := strings.Index(rest, "$"); i >= 0 {
+			return "init$lit" + rest[i:]
+		}
+		return "init$lit"
+	}
 	return s
 }
 
